@@ -43,8 +43,8 @@ describe('C02', 'other',
          'Stale identifiers are rejected by a dominating generation comparison (G1); reuse bumps the generation (G2); slots are never removed, so generations survive (A1); freed slots re-enter the free list, popped ones are used, deletes free exactly the removed identifier (P1, P2, P3); the free list is copied/deserialised verbatim (A2); moves keep locations current (P4, P5); clone remaps locations into the clone (P8); deserialisation rebuilds locations from actual rows and rejects duplicates/missing slots (G5iii).',
          'global uniqueness of identifiers over a lifetime as a computed fact (generation arithmetic over histories)')
 describe('C03', 'other',
-         'A view touches only the head column of its own component, at the viewed mutability, with the shared length, and steps past it exactly when the bit is set (W1-W3, W5 on view/view_one/view_one_maybe_uninit); both filter tables are the right boolean function of identifier bits, cell by cell (T4); views are only materialised under the matching filter (G7); sub-views never strengthen mutability (T5); Archetype.length bookkeeping (P9).',
-         'one result per entity, values, size_hint brackets (numeric); next/fold agreement is covered only through G7')
+         'A view touches only the head column of its own component, at the viewed mutability, with the shared length, and steps past it exactly when the bit is set (W1-W3, W5 on view/view_one/view_one_maybe_uninit); both filter tables are the right boolean function of identifier bits, cell by cell (T4); views are only materialised under the matching filter (G7); sub-views never strengthen mutability (T5) and are extracted under the right guards (G6); next/fold agree (I1), the finite upper bound of size_hint depends on the upper bound of the archetype iterator (I2); every subset/order of views compiles and yields the requested item types in queries, World::entry and entry sub-views (V-VIEWS); Archetype.length bookkeeping (P9).',
+         'one result per entity, values; size_hint as a numeric bracket (only the dependence clause I2 is decided)')
 describe('C04', 'other',
          'No second owner of a live column is ever dropped (O1) or used unwrapped / raw (U3); fresh Vecs stored as columns are never dropped (O3); every value leaving a column through the packed buffer is consumed exactly once (O5); slots are written back with the raw parts of the Vec rebuilt from them (O2), adoption only over empty unallocated columns (O6); typed access at the head type (W3); the deserialising column/row readers drop or keep each value exactly once on error paths (G5iv, G5v); shape change moves (P5).',
          'counting drops over histories; leaks caused by user mem::forget')
